@@ -229,6 +229,14 @@ def run(ctx):
     b = subprocess.run(["lake", "build", "drv_protocol"], cwd=LEAN, capture_output=True, text=True)
     if b.returncode != 0:
         raise RuntimeError("drv_protocol does not build: " + (b.stdout + b.stderr)[-800:])
+    # mutual exclusion around a *cancelled* sender (cancellation is not a step of the protocol model: the Spec —
+    # callbacks of two events never overlap, an abandoned transition does not go on in the background — is checked
+    # on the implementation directly)
+    from props.c03 import probe_cancelled_sender
+    pc = probe_cancelled_sender(f"{ctx.seed}:c06", cases=40)
+    ctx.coverage["cancelled_sender_cases"] = 40
+    if pc:
+        ctx.violation(ctx.write_replay("cancelled_sender.txt", "\n".join(pc[:12]) + "\n"), pc[0])
     ncases, pf = probe_detached_sends()
     ctx.coverage["detached_send_cases"] = ncases
     if pf:
